@@ -318,16 +318,17 @@ func pairsCoq(l [][2]int64) string {
 // ---------------------------------------------------------------- run
 
 type harness struct {
-	c      *lib.Ctx
-	ls     *lib.Livesim
-	rng    *rand.Rand
-	terms  []string
-	defs   strings.Builder
-	nEval  int
-	nextID int
-	dist   map[string]bool
-	base   map[string]baseResp
-	repDef map[string]string
+	c       *lib.Ctx
+	ls      *lib.Livesim
+	rng     *rand.Rand
+	terms   []string
+	defs    strings.Builder
+	nEval   int
+	nextID  int
+	retries int
+	dist    map[string]bool
+	base    map[string]baseResp
+	repDef  map[string]string
 }
 
 func (h *harness) id() int { h.nextID++; return h.nextID - 1 }
@@ -390,22 +391,35 @@ func frameDur(ar *lib.TLRep) int64 {
 	return (s.End - s.Start) / int64(s.NSamples)
 }
 
-func domainOf(ref *lib.TLRep, cfg lib.TLCfg, codes []codeSpec) string {
+func domainOf(ref *lib.TLRep, cfg lib.TLCfg, codes []codeSpec, n int64) string {
+	dom := "ok"
 	switch {
 	case cfg.StartS != 0:
-		return "start"
+		dom = "start"
 	case cfg.EffSnr() != 0:
-		return "snr"
+		dom = "snr"
 	}
 	for _, cs := range codes {
 		if cs.Cycle > math.MaxInt32 {
 			return "wrap-cycle"
 		}
-		if cs.Cycle*ref.Timescale < ref.Segs[0].End {
-			return "short-cycle"
+		if dom == "ok" && cs.Cycle*ref.Timescale < ref.Segs[0].End {
+			dom = "short-cycle"
 		}
 	}
-	return "ok"
+	if dom != "ok" {
+		// in the first cycle of every pattern the code does not consult the timeline: no defect there
+		first := true
+		for _, cs := range codes {
+			if ref.LoopS(n) >= cs.Cycle*ref.Timescale {
+				first = false
+			}
+		}
+		if first {
+			dom += "-first-cycle"
+		}
+	}
+	return dom
 }
 
 // statusRequest issues one media-segment request with statuscode_ and its baseline, evaluates the
@@ -427,7 +441,7 @@ func (h *harness) statusRequest(a *lib.TLAsset, r *lib.TLRep, cfg lib.TLCfg, cod
 	url := lib.SegURL(a, cfg, r, segID, now)
 	base := h.baseline(lib.SegURL(a, plain, r, segID, now))
 	resp := h.get(url)
-	dom := domainOf(ref, cfg, codes)
+	dom := domainOf(ref, cfg, codes, n)
 	in := c14in{Kind: "status", Domain: dom, Asset: a.Path, Rep: r.ID, Cfg: &cfg, Codes: codes, N: n, SegID: segID, NowMS: now, URL: url}
 	id := fmt.Sprint(h.id())
 	h.nEval++
@@ -530,7 +544,7 @@ func (h *harness) statusSweep(assets []*lib.TLAsset) {
 			for rsq := int64(0); rsq <= perCycle; rsq++ {
 				codes := []codeSpec{{Cycle: cycle, Rsq: rsq, Code: codeValues[int(rsq+cycle)%len(codeValues)]}}
 				for n := int64(0); n <= nMax; n++ {
-					h.statusRequest(a, mainRep, num, codes, n, 7)
+					h.statusRequest(a, mainRep, num, codes, n, 13)
 					if heavy && mainRep != ref && n%17 == rsq%17 {
 						h.statusRequest(a, ref, num, codes, n, 1)
 					}
@@ -551,7 +565,7 @@ func (h *harness) statusSweep(assets []*lib.TLAsset) {
 							continue
 						}
 						for n := int64(0); n <= nMax; n++ {
-							h.statusRequest(a, r, num, codes, n, 5)
+							h.statusRequest(a, r, num, codes, n, 8)
 						}
 					}
 				}
@@ -563,7 +577,7 @@ func (h *harness) statusSweep(assets []*lib.TLAsset) {
 							continue
 						}
 						for n := int64(0); n <= nMax; n++ {
-							h.statusRequest(a, r, cfg, codes, n, 3)
+							h.statusRequest(a, r, cfg, codes, n, 5)
 						}
 					}
 				}
@@ -579,7 +593,7 @@ func (h *harness) statusSweep(assets []*lib.TLAsset) {
 							continue
 						}
 						for n := int64(0); n <= nMax; n++ {
-							h.statusRequest(a, r, num, codes, n, 3)
+							h.statusRequest(a, r, num, codes, n, 5)
 						}
 					}
 				}
@@ -612,7 +626,7 @@ func (h *harness) statusSweep(assets []*lib.TLAsset) {
 func (h *harness) calcSweep() {
 	c := h.c
 	rng := h.rng
-	nTables := 60
+	nTables := 40
 	if c.Thorough() {
 		nTables = 600
 	}
@@ -689,7 +703,6 @@ func (h *harness) calcSweep() {
 				codes = append(codes, cs)
 			}
 			cfg.Extra = codesURL(codes)
-			dom := domainOf(r, cfg, codes)
 			var nMax int64
 			for nMax = 0; r.LoopS(nMax) < 4*cycle*ts && nMax < 60; nMax++ {
 			}
@@ -699,6 +712,7 @@ func (h *harness) calcSweep() {
 				segPart := fmt.Sprintf("%s/%d.m4s", vr.ID, segID)
 				url := fmt.Sprintf("/livesim2/%ssynthetic/%s", cfg.URLPrefix(), segPart)
 				cfgc := cfg
+				dom := domainOf(r, cfg, codes, n)
 				in := c14in{Kind: "calc", Domain: dom, Rep: vr.ID, Cfg: &cfgc, Codes: codes, N: n, SegID: segID, NowMS: now, URL: url, Segs: segs, Timescale: ts, LoopMS: loopMS}
 				code, errS, pan := callCalc(in)
 				id := fmt.Sprint(h.id())
@@ -807,6 +821,17 @@ func (h *harness) finishTraffic(q *trafficReq) {
 		status = 0
 	}
 	dc := delayClass(q.elapsed)
+	// a stalled machine can delay any request: a delay that does not fit the state is measured again
+	// (a wrong sleep in the code is deterministic and stays)
+	wantDC := map[byte]int64{'s': 2, 'h': 10}[q.want]
+	for try := 0; dc != wantDC && q.resp.Panic == "" && try < 2 && h.retries < 8; try++ {
+		h.retries++
+		t0 := time.Now()
+		q.resp = h.get(q.url)
+		q.elapsed = time.Since(t0)
+		dc = delayClass(q.elapsed)
+		status = q.resp.Status
+	}
 	in := q.in
 	// oracle
 	what := ""
@@ -884,7 +909,7 @@ func (h *harness) trafficSweep(a *lib.TLAsset) {
 		h.finishTraffic(q)
 	}
 	// every second of three cycles, patterns grouped three per URL: bu<i> selects pattern i
-	coqEvery := 23
+	coqEvery := 37
 	k := 0
 	for g := 0; g < len(pats); g += 3 {
 		grp := pats[g:min(g+3, len(pats))]
